@@ -243,7 +243,12 @@ extern void *cmi_coroutine_transfer(struct cmi_coroutine *to, void *msg)
     /* May pass through here on its way out from cmi_coroutine_exit */
     cmb_assert_release((from->status == CMI_COROUTINE_RUNNING)
                     || (from->status == CMI_COROUTINE_FINISHED));
-    to->caller = from;
+    if (from->status == CMI_COROUTINE_RUNNING) {
+        /* A coroutine on its way out is nobody's caller, a later yield by the
+         * receiving coroutine could not go back to it */
+        to->caller = from;
+    }
+
     coroutine_current = to;
 
     /* The actual context switch happens in assembly */
